@@ -223,6 +223,9 @@ class SimNet:
         self.pending: dict = {}
 
     def _plan(self, addr: str) -> dict:
+        for ent in self.cfg.get("connect_at", []):
+            if ent["from"] <= self.world.now < ent["to"]:
+                return ent
         plans = self.cfg.get("connect", {})
         lst = plans.get(addr, plans.get("*", [{"outcome": "ok", "latency": 0.001}]))
         i = self.attempts.get(addr, 0)
@@ -355,6 +358,7 @@ class SimDevice:
     def __init__(self, world: World, cfg: dict, pb: Any, table: wire.ProtoTable) -> None:
         self.world = world
         self.cfg = cfg or {}
+        self.base_cfg = dict(self.cfg)
         self.pb = pb
         self.table = table
         self.transport = self.cfg.get("transport", "plaintext")
@@ -373,7 +377,26 @@ class SimDevice:
 
     # connection lifecycle -----------------------------------------------------------
     def on_connect(self, conn: SimConn) -> None:
+        pa = self.base_cfg.get("persona_at")
+        if pa is not None:
+            ov = {}
+            for ent in pa:
+                if ent["from"] <= self.world.now < ent["to"]:
+                    ov = ent["cfg"]
+                    break
+            self.cfg = {**self.base_cfg, **ov}
+            self.transport = self.cfg.get("transport", "plaintext")
+            self.reply_count = {}
+        sess = self.base_cfg.get("sessions")
+        if sess:
+            # per-session persona: overrides for accepted connection #k (last one sticks)
+            ov = sess[min(self.sessions, len(sess) - 1)]
+            self.cfg = {**self.base_cfg, **ov}
+            self.transport = self.cfg.get("transport", "plaintext")
+            self.reply_count = {}
+        self.sessions += 1
         self.live_conns.append(conn)
+        self.world.max_live = max(getattr(self.world, "max_live", 0), len(self.live_conns))
         st = conn.dstate
         st["seen_hello"] = False
         st["authed"] = False
